@@ -55,6 +55,7 @@ class SubstituteInterpretation(Interpretation):
         super().__init__("subs")
         self.subs = subs
         self.base_interpretation = base_interpretation
+        self.fresh = frozenset()  # names introduced by the node being rebuilt
         assert isinstance(subs, tuple)
         assert all(isinstance(v, Funsor) for k, v in subs)
 
@@ -65,7 +66,11 @@ class SubstituteInterpretation(Interpretation):
     def interpret(self, cls, *args):
         with self.base_interpretation:
             expr = cls(*args)
-            fresh_subs = tuple((k, v) for k, v in self.subs if k in expr.fresh)
+            # Substitute only for names that the original node introduces, not
+            # for names brought along by its already substituted arguments.
+            fresh_subs = tuple(
+                (k, v) for k, v in self.subs if k in self.fresh and k in expr.fresh
+            )
             if fresh_subs:
                 expr = instrument.debug_logged(expr.eager_subs)(fresh_subs)
             if instrument.PROFILE:
@@ -90,7 +95,7 @@ def substitute(expr, subs):
 
     env = interpreter.anf(expr, stop)
 
-    with SubstituteInterpretation(subs, interpreter.get_interpretation()):
+    with SubstituteInterpretation(subs, interpreter.get_interpretation()) as interp:
         for key, value in env.items():
             args = tuple(
                 c if interpreter.is_atom(c) else env.get(c, c)
@@ -99,6 +104,7 @@ def substitute(expr, subs):
             if isinstance(value, (tuple, frozenset)):  # TODO absorb this into interpret
                 env[key] = type(value)(args)
             else:
+                interp.fresh = value.fresh
                 env[key] = type(value)(*args)
     return env[expr]
 
